@@ -246,3 +246,67 @@ def bootargs(ck):
             ck.note_drift("[extension BootArgs.tla] " + t)
     ck.extra["extension_bootargs_histories"] = n
     ck.extra["extension_bootargs_construction_outcomes"] = out
+
+
+def _backend_one(ob):
+    """Backend.tla state -> real _validate_backend with the installation state faked through sys.modules"""
+    import sys
+    import types
+    import torch
+    from sklearn.linear_model import LinearRegression
+    from fairlearn.adversarial import AdversarialFairnessClassifier
+    from fairlearn.adversarial._pytorch_engine import PytorchEngine
+
+    class FakeKerasModel:
+        pass
+
+    def model(kind):
+        return [3] if kind == "list" else torch.nn.Linear(1, 1) if kind == "torch" else FakeKerasModel() if kind == "keras" else LinearRegression()
+
+    class MyEngine(PytorchEngine):
+        pass
+
+    saved = {k: sys.modules.get(k, "absent") for k in ("torch.nn", "keras")}
+    try:
+        if not ob["torch_installed"]:
+            sys.modules["torch.nn"] = None             # `from torch.nn import Module` now raises ImportError
+        if ob["tf_installed"]:
+            fake = types.ModuleType("keras"); fake.Model = FakeKerasModel
+            sys.modules["keras"] = fake
+        else:
+            sys.modules["keras"] = None
+        est = AdversarialFairnessClassifier(backend=MyEngine if ob["backend"] == "engine" else ob["backend"], predictor_model=model(ob["pk"]), adversary_model=model(ob["ak"]))
+        try:
+            est._validate_backend()
+            b = est.backend_
+            got = "given" if b is MyEngine else b.__name__
+        except ValueError as e:
+            got = "ValueError_backend" if "'backend'" in str(e) else "ValueError_models" if "predictor_model and adversary_model" in str(e) else "ValueError " + str(e)[:60]
+        except RuntimeError as e:
+            got = "RuntimeError_import" if "Please make sure to install" in str(e) else "RuntimeError " + str(e)[:60]
+        except Exception as e:
+            got = f"{type(e).__name__} {str(e)[:60]}"
+    finally:
+        for k, v in saved.items():
+            if v == "absent":
+                sys.modules.pop(k, None)
+            else:
+                sys.modules[k] = v
+    if got != ob["outcome"]:
+        return [f"backend {json.dumps({k: ob[k] for k in ('backend', 'torch_installed', 'tf_installed', 'pk', 'ak')})}: '{got}', Backend.tla says '{ob['outcome']}'"]
+    return []
+
+
+def backend(ck):
+    laws = "".join(f"INVARIANT {x}\n" for x in ("AutoPrefersTorch", "ListsWorkWithAnythingInstalled", "ExplicitNeverFallsBack", "EngineNeedsItsLibrary", "MixedModelsRejected"))
+    obs = ck.tlc("Backend", f"CONSTANTS Emit = TRUE\nSPECIFICATION Spec\n{laws}INVARIANT EmitInv\nCHECK_DEADLOCK FALSE\n",
+                 "extension: backend selection of the adversarial estimators", workers=1, timeout=600).emitted
+    n = 0
+    out = {}
+    for ob, notes in zip(obs, pmap(_backend_one, obs, chunksize=8)):
+        n += 1
+        out[ob["outcome"]] = out.get(ob["outcome"], 0) + 1
+        for t in notes:
+            ck.note_drift("[extension Backend.tla] " + t)
+    ck.extra["extension_backend_cases"] = n
+    ck.extra["extension_backend_outcomes"] = out
